@@ -64,7 +64,8 @@ def run(tier):
         decl_by = {j['cls']: j['decl'] for j in jobs}
 
         def ev(name, it):
-            vals = [v for _, v in decl_by[name]]
+            # any ordinal the field's (possibly overridden) underlying type can carry: declared or not
+            vals = [v for _, v in decl_by[name] if v <= IMAX[it]]
             z = rng.choice(vals + [rng.randrange(0, IMAX[it] + 1), IMAX[it], min(IMAX[it], 253), min(IMAX[it], 300)])
             return {'e': name, 'v': z}
         for _ in range(6):
